@@ -243,7 +243,7 @@ def check_cell_order(run, funcs, pid, cname, planes, verts, seed, max_ties, loc)
             exact_keys = {}
             for e in s.events:
                 if e[0] == 'exact':
-                    exact_keys[frozenset(wall_key[x] for x in e[1])] = sym['ex'][e[1]]
+                    exact_keys[frozenset((p_new if x == 'new' else wall_key.get(x, p_new)) for x in e[1])] = sym['ex'][e[1]]
             conds = []
             for k, (dual, loc) in orig.items():
                 c = sum(to_z3(a) * b for a, b in zip(sym['n'].items, loc)) - sym['d']
